@@ -34,6 +34,8 @@ Variable genv : list byte -> option (list byte).
 Variable progname progver : list byte.
 Variable exec_out : list byte -> exec_answer.
 Variable dir_list : list byte -> dir_answer.
+Variable extra : list (list byte * Z).
+Variable ufn : Z -> option (list byte) -> option (list byte).
 
 Definition lbody (self : list byte -> list byte -> bool -> bool -> store -> llres)
                  (s pre : list byte) (q1 q2 : bool) (st : store) : llres :=
@@ -54,7 +56,7 @@ Definition lbody (self : list byte -> list byte -> bool -> bool -> store -> llre
         else self t' (pre ++ [c; d]) q1 q2 st
       end
     else if c =? 37 then
-      match find_call builtin_table t with
+      match find_call (full_table extra) t with
       | None =>
         match t with
         | [] => self [] (pre ++ [c]) q1 q2 st
@@ -74,7 +76,7 @@ Definition lbody (self : list byte -> list byte -> bool -> bool -> store -> llre
                 | LLNull st1 => (None, st1)
                 | _ => (None, st)
                 end in
-            let '(out, st2) := s_builtin progname progver exec_out dir_list code param st1 in
+            let '(out, st2) := s_builtin progname progver exec_out dir_list ufn code param st1 in
             match out with
             | BExt e => LLExt e
             | BStr (o :: ot) => self rest (lplace pre (o :: ot)) q1 q2 st2
